@@ -6,7 +6,7 @@ from __future__ import annotations
 
 import itertools
 
-from .. import common, strat
+from .. import common, loaders, strat
 from ..common import enc_list
 
 RULE = ("minimize with default options under the test 'interesting iff all atoms of the core are present': every core subset for n <= N0 "
@@ -228,6 +228,56 @@ def interleaved_jobs(ctx):
                 ctx.fail("too-many-tests", f"default minimize side by side with {other}: {tests} tests > bound {bound(n, len(core))}", case)
 
 
+def command_line_runs(ctx):
+    """the property speaks of DEFAULT OPTIONS: the same claim through `Lithium.main(argv)` with no option given (what the
+    argument parser fills in is what counts), on files that the real loaders split — including a symbol file whose last
+    statement has no delimiter behind it"""
+    import contextlib
+    import io
+    import os
+    from lithium.reducer import Lithium
+
+    d = loaders.scratch() / "c10-cli"
+    d.mkdir(exist_ok=True)
+    (d / "c10_core_test.py").write_text(
+        "import os\nCOUNT = [0]\ndef interesting(args, prefix):\n    COUNT[0] += 1\n    data = open(args[-1], 'rb').read()\n"
+        "    return all(t in data for t in os.environ['C10_CORE'].encode('latin1').split(b'|') if t)\n")
+    cwd = os.getcwd()
+    os.chdir(d)
+    try:
+        cases = [("--lines", b"".join(b"line%03d\n" % i for i in range(300)), [b"line007\n", b"line150\n"]),
+                 ("--lines", b"".join(b"line%03d\n" % i for i in range(300)), []),
+                 ("--symbol", b"".join(b"s%03d;" % i for i in range(96)) + b"tail_without_delimiter", [b"tail_without_delimiter"]),
+                 ("--symbol", b"".join(b"s%03d;" % i for i in range(96)) + b"tail_without_delimiter", [b"s010;", b"tail_without_delimiter"]),
+                 ("--char", bytes(range(48, 48 + 70)), [b"A"])]
+        for flag, data, core in cases:
+            tc = d / "tc.txt"
+            tc.write_bytes(data)
+            os.environ["C10_CORE"] = b"|".join(core).decode("latin1")
+            import sys
+            sys.modules.pop("c10_core_test", None)
+            lith = Lithium()
+            case = dict(cli=True, argv=[flag], n_bytes=len(data), core=[c.decode("latin1") for c in core])
+            try:
+                with contextlib.redirect_stdout(io.StringIO()), contextlib.redirect_stderr(io.StringIO()):
+                    lith.main([flag, "c10_core_test.py", str(tc)])
+            except (Exception, SystemExit) as exc:  # pylint: disable=broad-except
+                ctx.fail("cli-raises", f"main([{flag}, ...]) raised {type(exc).__name__}: {exc}", case)
+                continue
+            finally:
+                os.environ.pop("C10_CORE", None)
+            ctx.evaluations += 1
+            ctx.bump("command-line-runs")
+            n = {"--lines": data.count(b"\n"), "--char": len(data)}.get(flag, data.count(b";") + 1)
+            tests = lith.test_count
+            if tc.read_bytes() != b"".join(core):
+                ctx.fail("not-the-core", f"main([{flag}, ...]) on {n} atoms, core {core}: the file holds {tc.read_bytes()[:60]!r}", case)
+            if tests > bound(n, len(core)):
+                ctx.fail("too-many-tests", f"main([{flag}, ...]) with default options on {n} atoms, m={len(core)}: {tests} tests > bound {bound(n, len(core))}", case)
+    finally:
+        os.chdir(cwd)
+
+
 def second_pass(ctx):
     """ONE Lithium object is run a second time (the 'please perform another pass' advice) on the file the first pass left:
     the second pass is a reduction of THAT file — m atoms, all of them core — so it returns it unchanged within the bound
@@ -312,6 +362,7 @@ def run(ctx) -> int:
     collision_case(ctx)
     reused_strategy(ctx)
     second_pass(ctx)
+    command_line_runs(ctx)
     interleaved_jobs(ctx)
     scripts_as_testcases(ctx)
     on_disk(ctx, 7 if ctx.thorough else 5)
